@@ -54,6 +54,9 @@ func coreC10(tier string) []RunSpec {
 	for k := 0; k < 4; k++ {
 		out = append(out, RunSpec{Profile: "core:failed-melt-then-send-dleq", Params: map[string]int{"meltback": 1, "k": k}})
 	}
+	for k := 0; k < 4; k++ {
+		out = append(out, RunSpec{Profile: "core:large-request-restore", Params: map[string]int{"large": 1, "k": k}})
+	}
 	return out
 }
 
@@ -752,6 +755,14 @@ func runC10(rc *RunCtx) {
 				ww.forceSendAll = false
 			}
 			ww.StepReceive()
+		case rc.P("large", 0) == 1:
+			// one mint request with hundreds of outputs: every signature, as returned and as restored
+			// (before / after a restart), is checked by the signature monitors
+			if i == 0 {
+				m.StepLargeRequest([]int{170, 340}[rc.P("k", 0)%2], rc.P("k", 0) >= 2)
+			} else {
+				ww.Step(T.Pick("step.kind", 2, 5, 5, 2, 1, 0, 1, 0, 1))
+			}
 		case rc.P("meltback", 0) == 1:
 			// proofs that were locked in a melt whose payment failed come back into the wallet from its
 			// pending storage; sent on with their DLEQ proofs they must still verify for the recipient
